@@ -1,14 +1,16 @@
 (* C01/Corr.v — correspondence: one case = environment, class description (trait per
    attribute name) and the history of (operation, observation recorded from the implementation);
-   every history starts on a fresh instance (empty dictionary). *)
+   every history starts on a fresh instance some of whose attributes may have been READ (which stores their default
+   values): the names read and the dictionary observed after the reads come with the case. *)
 From Coq Require Import ZArith List Bool.
 From TV Require Import Common.PyVal Common.Harness C03.Model C01.Model C01.Law.
 Import ListNotations.
 Open Scope Z_scope.
 
-Definition case := (env * cls * list (op * obs))%type.
+Definition case := (env * cls * (list Z * inst) * list (op * obs))%type.
 
-(* codes: 100*step + 1 outcome class, 2 dictionary after the operation.  The model is
+(* codes: 100*step + 1 outcome class, 2 dictionary after the operation, 3 readable of a dynamic Range / Enum;
+   8 the dictionary after the initial reads (Model.pre_state).  The model is
    re-synchronised on the implementation's dictionary after every step. *)
 Fixpoint corr_hist (E : env) (c : cls) (i : Z) (s : inst) (h : list (op * obs)) : list Z :=
   match h with
@@ -33,5 +35,7 @@ Fixpoint corr_hist (E : env) (c : cls) (i : Z) (s : inst) (h : list (op * obs)) 
       ++ corr_hist E c (i + 1) (o_after ob) r
   end.
 
-Definition corr_codes (c : case) : list Z := let '(E, cl, h) := c in corr_hist E cl 0 [] h.
-Definition law_codes (c : case) : list Z := let '(E, cl, h) := c in law_hist E cl 0 [] h ++ law_reads cl 0 h.
+Definition corr_codes (c : case) : list Z :=
+  let '(E, cl, (pre, init), h) := c in chk 8 (same_on (names_of cl) (pre_state cl pre) init) ++ corr_hist E cl 0 init h.
+Definition law_codes (c : case) : list Z :=
+  let '(E, cl, (pre, init), h) := c in law_pre cl pre init ++ law_hist E cl 0 init h ++ law_reads cl 0 h.
